@@ -1,6 +1,7 @@
 -- @checker ed edCheck
 import Chewing.Model.Editor
 import Chewing.Model.Candidates
+import Chewing.Model.TrieBuf
 import Chewing.Driver.Util
 /-!
 `ed …` records: one step of the editor state machine, recomputed from the implementation's own
@@ -68,9 +69,14 @@ def insertSorted (e : UEntry) : List UEntry → List UEntry
     else if ueLt e x then e :: x :: xs
     else x :: insertSorted e xs
 
-/-- `TrieBuf::entries_iter_for` + `lookup_first_n_phrases` without a persisted snapshot -/
-def layerLookup (es : List UEntry) (grave : List (List Nat × Text)) (key : List Nat) : List Phrase :=
-  ((es.filter fun e => e.key == key).filter fun e => !grave.contains (key, e.text)).map
+/-- `TrieBuf::entries_iter_for` + `lookup_first_n_phrases` without a persisted snapshot: the pending entries
+    whose key matches the query under the strategy (`==`, or per syllable `starts_with` with the same
+    number of syllables — since fix 097161a, F36, an in-memory `TrieBuf` matches pending entries by prefix;
+    before it the prefix lookup of an in-memory dictionary was its exact lookup), `BTreeMap` order, minus
+    the tombstones of the entry's own key -/
+def layerLookup (es : List UEntry) (grave : List (List Nat × Text)) (key : List Nat) (st : Strategy := .standard) :
+    List Phrase :=
+  ((es.filter fun e => Trie.keyMatch st e.key key).filter fun e => !grave.contains (e.key, e.text)).map
     fun e => { text := e.text, freq := e.freq, lastUsed := some e.time }
 
 /-- `Phrase: Ord` — frequency, then text -/
@@ -83,10 +89,11 @@ def dedup (ps : List Phrase) : List Phrase :=
       acc.map fun q => if q.text == p.text then (if phraseLe p q then q else p) else q
     else acc ++ [p]) []
 
-def MemDict.userLookup (d : MemDict) (key : List Nat) : List Phrase := dedup (layerLookup d.btree d.grave key)
+def MemDict.userLookup (d : MemDict) (key : List Nat) (st : Strategy := .standard) : List Phrase :=
+  dedup (layerLookup d.btree d.grave key st)
 
-def MemDict.lookup (d : MemDict) (key : List Nat) : List Phrase :=
-  dedup ((d.sys.flatMap fun l => dedup (layerLookup l [] key)) ++ d.userLookup key)
+def MemDict.lookup (d : MemDict) (key : List Nat) (st : Strategy := .standard) : List Phrase :=
+  dedup ((d.sys.flatMap fun l => dedup (layerLookup l [] key st)) ++ d.userLookup key st)
 
 def MemDict.add (d : MemDict) (key : List Nat) (p : Phrase) : Option MemDict :=
   if p.text.isEmpty then some d
@@ -284,8 +291,8 @@ def dictFp (d : MemDict) : Nat :=
   d.btree.length * 1000003 + d.grave.length * 10007 + d.btree.foldl (fun a e => a + e.freq + e.time) 0
 
 def mkEnv (answers : List ConvAnswer) : Env MemDict Lay where
-  lookupAll d key _ := d.lookup key
-  userLookupAll d key _ := d.userLookup key
+  lookupAll d key st := d.lookup key st
+  userLookupAll d key st := d.userLookup key st
   addPhrase d key p := d.add key p
   updatePhrase d key p f t := d.update key p f t
   removePhrase d key t := d.remove key t
